@@ -52,6 +52,8 @@ def concrete_run(prog, env0, rst):
             for name, fs in prog.get("fsms", {}).items():
                 fsm = sigs["fsm:" + name]
                 out.setdefault("ongoing", {})[name] = {st: ctx.get(fsm.ongoing(st)) for st in fs["states"]}
+                for st in fs["states"]:
+                    out["comb"][f"{name}.ongoing({st})"] = out["ongoing"][name][st]
             await ctx.tick()
             out["regs"] = {n: ctx.get(sigs[n]) for n, v in prog["signals"].items() if v[3] == "sync"}
             for name, fs in prog.get("fsms", {}).items():
@@ -71,6 +73,9 @@ def oracle_concrete(prog, env0, rst):
     env = oracle.comb(e0)
     nxt = oracle.step(env, rst=rst)
     out = {"comb": {n: env[n] for n, v in prog["signals"].items() if v[3] == "comb"}, "regs": {}}
+    for name, fs in prog.get("fsms", {}).items():
+        for k_, st in enumerate(fs["states"]):
+            out["comb"][f"{name}.ongoing({st})"] = 1 if env0["fsm:" + name] == k_ else 0
     for k, v in nxt.items():
         out["regs"][k] = v[0] if isinstance(v, tuple) else v
     return out
@@ -80,13 +85,10 @@ def check_program(job):
     prog = job["prog"]
     text = S.show(prog)
     base = {"id": job["id"], "program": text, "nontrivial": True}
-    try:
-        with warnings.catch_warnings():
-            warnings.simplefilter("ignore")
-            m, sigs, domains = S.build(prog)
-            sim = symsim.SymSim(m)
-    except (SyntaxError, TypeError, ValueError, IndexError, NameError) as ex:
-        return [dict(base, kind="unconstructible", status="skipped", detail=f"{type(ex).__name__}: {ex}")]
+    built, sim, problem = symsim.construct_or_report(lambda: S.build(prog), base, {"prog": prog, "construct": True})
+    if problem is not None:
+        return [problem]
+    m, sigs, domains = built
     oracle = refstmt.StmtOracle(prog)
     cd = domains["sync"]
     fsms = prog.get("fsms", {})
@@ -256,6 +258,17 @@ def replay(path):
     with open(path) as f:
         d = json.load(f)
     r = d["replay"]
+    if r.get("construct"):
+        from amaranth.sim import Simulator
+        try:
+            with symsim.real_states():
+                Simulator(S.build(r["prog"])[0])
+        except Exception as ex:
+            print("program:\n" + S.show(r["prog"]))
+            print(f"Simulator(design) raises {type(ex).__name__}: {ex}")
+            return 1
+        print("constructs fine")
+        return 0
     real = concrete_run(r["prog"], r["state"], r["rst"])
     want = oracle_concrete(r["prog"], r["state"], r["rst"])
     print("program:\n" + S.show(r["prog"]))
